@@ -125,7 +125,15 @@ func (m MapSchema[K, V]) Unserialize(data any) (any, error) {
 		if err != nil {
 			return nil, ConstraintErrorAddPathSegment(err, fmt.Sprintf("[%v]", k.Interface()))
 		}
-		result.SetMapIndex(reflect.ValueOf(unserializedKey), reflect.ValueOf(unserializedValue))
+		resultKey := reflect.ValueOf(unserializedKey)
+		if result.MapIndex(resultKey).IsValid() {
+			// Two raw keys (for example 1 and "1") denote the same key. Which of the two entries would
+			// survive depends on the iteration order of the input, so the input is rejected.
+			return nil, ConstraintErrorAddPathSegment(&ConstraintError{
+				Message: fmt.Sprintf("Duplicate key: more than one key of the input converts to %v", unserializedKey),
+			}, fmt.Sprintf("{%v}", k.Interface()))
+		}
+		result.SetMapIndex(resultKey, reflect.ValueOf(unserializedValue))
 	}
 	return result.Interface(), nil
 }
